@@ -1,15 +1,106 @@
-(* Props/C03.v -- property C03 (provisional instance; the general theorems are being added) *)
-From Coq Require Import ZArith NArith List.
-From RP Require Import Base.Bits Model.Codec Model.Showdown Model.Game Spec.SpecNLHE Spec.SpecGameInv.
+(* Props/C03.v -- property C03: the betting engine (Model/Game.v) is bisimilar to the rule-book
+   No-Limit Hold'em machine (Spec/SpecNLHE.v) on ALL reachable states (induction over arbitrary
+   action lists); rejected actions do not change the state; every hand ends within max_history
+   actions; the hand is over exactly when the rule book says so.
+   The relation R is defined in Spec/SpecRel.v. *)
+From Coq Require Import ZArith NArith List Bool.
+From RP Require Import Base.Bits Gen.GenLib Gen.GenFixes Model.Codec Model.Showdown Model.Game
+                       Spec.SpecNLHE Spec.SpecGameInv Spec.SpecRel
+                       Proofs.C03_Settle Proofs.C03_Moves Proofs.C03_Bisim Proofs.C03_Examples.
 Import ListNotations.
 Open Scope Z_scope.
-Definition ex_holes : list N := [mask_of_bits [51; 50]%N; mask_of_bits [41; 40]%N].
-(* after Call(1), Check pre-flop the engine and the rule book both await the flop, and a raise is rejected *)
-Theorem C03_chance_instance :
-  match root Standard ex_holes with
-  | Some g0 => match run Standard g0 [Call 1; Check] with
-               | Some g => turn_of g = Chance /\ is_allowed Standard g (Raise 2) = Some false
-               | None => False end
-  | None => False end.
-Proof. vm_compute. split; reflexivity. Qed.
-Print Assumptions C03_chance_instance.
+
+(* in every reachable state the engine shows the same turn as the rule book and accepts exactly
+   the rule-book actions (every kind, every Z amount, well- and ill-formed draws) *)
+Theorem C03_bisim : forall d hs acts g0 g,
+  wf_holes d hs -> root d hs = Some g0 -> run d g0 acts = Some g ->
+  exists s, srun d (sroot hs) acts = Some s /\ same_moves d g s.
+Proof. exact bisim_moves. Qed.
+Print Assumptions C03_bisim.
+
+(* the relation behind C03_bisim: at the root, preserved by every accepted action (together with
+   legality in the rule book and a strict drop of the potential), and implying same_moves.
+   The hypothesis RAISE_ARM_CHECKS_TURN = true is discharged by computation on the generated
+   constant in C03_bisim / C03_terminates / C03_end. *)
+Theorem C03_rel_root : forall d hs g0, wf_holes d hs -> root d hs = Some g0 -> R d g0 (sroot hs).
+Proof. exact R_root. Qed.
+Print Assumptions C03_rel_root.
+Theorem C03_rel_step : RAISE_ARM_CHECKS_TURN = true ->
+  forall d g s a g', R d g s -> apply d g a = Some g' ->
+  slegal d s a = true /\ R d g' (sstep s a) /\ potential g' + 1 <= potential g.
+Proof. exact R_step. Qed.
+Print Assumptions C03_rel_step.
+Theorem C03_rel_moves : RAISE_ARM_CHECKS_TURN = true -> forall d g s, R d g s -> same_moves d g s.
+Proof. exact R_same_moves. Qed.
+Print Assumptions C03_rel_moves.
+Theorem C03_rel_reachable : RAISE_ARM_CHECKS_TURN = true ->
+  forall d hs acts g0 g, wf_holes d hs -> root d hs = Some g0 -> run d g0 acts = Some g ->
+  exists s, srun d (sroot hs) acts = Some s /\ R d g s.
+Proof. exact bisim. Qed.
+Print Assumptions C03_rel_reachable.
+
+(* an action that is not allowed is refused and the state is untouched (apply returns None) *)
+Theorem C03_reject : forall d g a, is_allowed d g a <> Some true -> apply d g a = None.
+Proof. exact reject. Qed.
+Print Assumptions C03_reject.
+
+(* every line of play has at most max_history = 2 * STACK + 16 actions after the blinds *)
+Theorem C03_terminates : forall d hs acts g0 g,
+  wf_holes d hs -> root d hs = Some g0 -> run d g0 acts = Some g ->
+  Z.of_nat (length acts) <= max_history.
+Proof. exact terminates. Qed.
+Print Assumptions C03_terminates.
+
+(* the hand is over for the engine iff it is over for the related rule-book state, i.e. iff
+   exactly one seat has not folded, or it is the river and betting is closed *)
+Theorem C03_end : forall d hs g, wf_holes d hs -> reachable d hs g ->
+  exists acts s, srun d (sroot hs) acts = Some s /\ R d g s /\
+    (turn_of g = Terminal <-> over s = true) /\
+    (over s = true <-> (length (slive s) = 1%nat \/ (nstreet s = 3 /\ closed s = true))) /\
+    (turn_of g = Terminal <-> (length (live g) = 1%nat \/ (street g = 3 /\ closed s = true))).
+Proof. exact hand_end. Qed.
+Print Assumptions C03_end.
+
+(* the rule book's settle_round: after a move from a state that is not over, the hand is over iff
+   one player is left or betting is closed on the river *)
+Theorem C03_over_settle : forall s, over s = false ->
+  over (settle_round s) = (Nat.eqb (length (slive s)) 1 || (closed s && (nstreet s =? 3))).
+Proof. exact settle_round_over. Qed.
+Print Assumptions C03_over_settle.
+
+(* ---------- examples ---------- *)
+(* the hypotheses are satisfiable: a 12-action line (limp, check, flop, bet, raise, call, turn,
+   check, check, river, all-in, call) from well-formed hole cards, ending at showdown *)
+Example C03_hyps_wf : wf_holes Standard ex_holes.
+Proof. exact ex_holes_wf. Qed.
+Example C03_hyps_run :
+  exists g0 g, root Standard ex_holes = Some g0 /\ run Standard g0 ex_line = Some g /\ turn_of g = Terminal.
+Proof. exact ex_line_runs. Qed.
+Example C03_hyps_reachable : exists g, reachable Standard ex_holes g /\ turn_of g = Terminal.
+Proof. exact ex_reachable. Qed.
+Example C03_hyps_reject :
+  exists g0, root Standard ex_holes = Some g0 /\ is_allowed Standard g0 (Raise 1) <> Some true
+             /\ is_allowed Standard g0 (Call (-1)) <> Some true.
+Proof. exact ex_reject. Qed.
+
+(* D3 witness: after [Call 1; Check] pre-flop the engine awaits the flop and rejects Raise 2 *)
+Theorem C03_d3_witness :
+  exists g0 g, root Standard ex_holes = Some g0 /\ run Standard g0 [Call 1; Check] = Some g /\
+    turn_of g = Chance /\ is_allowed Standard g (Raise 2) = Some false /\ apply Standard g (Raise 2) = None.
+Proof. exact d3_witness. Qed.
+Print Assumptions C03_d3_witness.
+
+(* is_allowed_with is is_allowed with the guard of the Raise arm as a parameter ... *)
+Theorem C03_is_allowed_with : forall d g a, is_allowed_with RAISE_ARM_CHECKS_TURN d g a = is_allowed d g a.
+Proof. exact is_allowed_with_guard. Qed.
+Print Assumptions C03_is_allowed_with.
+(* ... and without the guard same_moves fails at the D3 state: the engine would accept Raise 2
+   while the rule book, awaiting the flop, refuses it *)
+Theorem C03_needs_turn_check :
+  exists g0 g s, root Standard ex_holes = Some g0 /\ run Standard g0 [Call 1; Check] = Some g /\
+    srun Standard (sroot ex_holes) [Call 1; Check] = Some s /\
+    sturn s = (1, 0) /\
+    is_allowed_with false Standard g (Raise 2) = Some true /\ slegal Standard s (Raise 2) = false /\
+    ~ (forall a, is_allowed_with false Standard g a = Some (slegal Standard s a)).
+Proof. exact needs_turn_check. Qed.
+Print Assumptions C03_needs_turn_check.
